@@ -96,6 +96,17 @@ def _set_domain(with_value):
 
     return gen
 
+def _getitem_domain(tier):
+    """plain, inherited, dotted, quoted and malformed keys on small parsed sets (the three routes of the lookup and every refusal)"""
+    from nix_manipulator import parse
+
+    texts = _SET_TEXTS + ["{ inherit (s) a b; }", "{ a = { b = { c = 1; }; x = 2; }; }", "let a = 1; in { inherit a; m = { inherit a; }; }",
+                          "{ a.b = { c = 1; }; }", '{ a."b.c" = 1; }']
+    for t in texts:
+        for key in ["a", "b", "c", "zz", '"a"', "", "a.b", "a.b.c", "a.x", "a.b.c.d", "a.", ".a", 'a."b.c"', 'a."b', "a.${b}", "m.a"]:
+            yield {"self": parse(t).expr, "key": key}
+
+
 # ---------------------------------------------------------------------------------------------
 # parse-time merge of attrpath-derived nested sets (`a.b.c = 1; a.b.d = 2;` -> one tree).  No ownership invariant is
 # assumed, so no whole-tree postcondition is stated; what is proved is what every step hands on: a binding is appended
@@ -122,23 +133,46 @@ contract(
 )
 
 
-# ---- assumed (trusted) contract of the lookup dunder: used by callers that walk a path through nested sets ---------------------
-# Not verified: the inherit branch builds a fresh Identifier with a resolution context (generator expressions, model_copy).  What
-# callers rely on: a lookup writes no field of the document, answers with the value of the first binding of that name when there
-# is one, raises KeyError on an empty set, and every set it hands out satisfies the representation invariant.
+# ---- the lookup dunder: used by callers that walk a path through nested sets -----------------------------------------------------
+# Verified on the real code (three routes: a plain binding; a name brought in by `inherit`, answered with a *fresh* Identifier that
+# carries a resolution context; a dotted key walked through nested sets).  What callers rely on: a lookup writes no field of the
+# document, answers with the value of the first binding of that name when there is one, with an object of the document or - only
+# when no binding has that name - a fresh Identifier, raises KeyError on an empty set.  Assumed, not checked against the body
+# (`assumed_ensures`): every set handed out satisfies the representation invariant of AttributeSet - a heap-wide invariant of
+# parsed documents the verifier has no device for.  Assumed externals: the resolution-context helpers write the registry only;
+# their single heap write, `owner.scope.owner = owner` in `_as_scope`, re-stores the back-pointer every parsed set already has.
+_CTX_NOTE = ("writes only the resolution-context registry (_store_context, proved separately); its one heap write, `owner.scope.owner = owner` "
+             "in _as_scope, re-stores the back-pointer a parsed set already has")
 contract(
     target="nix_manipulator/expressions/set.py::AttributeSet.__getitem__",
     params={"self": Ref("AttributeSet"), "key": Str},
     returns=Ref("NixExpression"),
     modifies=[],
+    externals={
+        "attach_resolution_context": External(returns=Ref("NixExpression"), params=["expr", "owner"], modifies=[], ensures=["heap_unchanged()"],
+                                              note=_CTX_NOTE),
+        "set_resolution_context": External(returns=NoneT, params=["expr", "scopes"], modifies=[], ensures=["heap_unchanged()"], note=_CTX_NOTE),
+        "scopes_for_owner": External(returns=ListRef("Scope"), params=["owner"], fresh=True, modifies=[],
+                                     note="proved separately for plain sets; here only: a fresh chain, " + _CTX_NOTE),
+        "name_expr.model_copy": External(returns=Ref("Identifier"), params=[], fresh=True, modifies=[], note="pydantic copy: a fresh object"),
+        "Identifier": External(returns=Ref("Identifier"), params=["name"], fresh=True, modifies=[], note="constructor: a fresh object"),
+        "Scope": External(returns=Ref("Scope"), params=["items", "owner"], fresh=True, modifies=[], note="constructor: a fresh container"),
+        "_split_attrpath": External(returns=ArrOf("str"), params=["attrpath"], modifies=[], ensures=["heap_unchanged()"],
+                                    exsures={"ValueError": ["heap_unchanged()"]},
+                                    note="proved separately against the attrpath component automaton (C12); here only: a pure function of the key"),
+    },
     ensures=["heap_unchanged()", "first_binding(self.values, key) is None or result is first_binding(self.values, key).value",
-             "result is None or result < alloc_at_entry()",
+             # an object of the document - or, only for a name no binding has (an inherited one), a fresh Identifier
+             "result is None or result < alloc_at_entry() or (first_binding(self.values, key) is None and isinstance(result, Identifier))",
              # something was found: the set is not empty (an empty set raises KeyError)
-             "len(self.values) > 0",
-             # representation invariant of every AttributeSet of the document (assumed)
-             "implies(isinstance(result, AttributeSet), result.values is not result.attrpath_order and distinct_elems(result.values) and distinct_elems(result.attrpath_order))"],
+             "len(self.values) > 0"],
+    # representation invariant of every AttributeSet of the document (assumed)
+    assumed_ensures=["implies(isinstance(result, AttributeSet), result.values is not result.attrpath_order and distinct_elems(result.values) and distinct_elems(result.attrpath_order))"],
     exsures={"KeyError": ["first_binding(self.values, key) is None", "heap_unchanged()"]},
-    trusted=True,  # listed under assumptions in the evidence
-    domain=False,
+    loops={0: Loop(invariant=[_NOMATCH]),
+           1: Loop(invariant=["isinstance(current, AttributeSet) and current < alloc_at_entry()", "implies(_i == 0, current is self)",
+                              "implies(_i > 0, len(self.values) > 0)", "heap_unchanged()"])},
+    canaries=["result < alloc_at_entry()", "first_binding(self.values, key) is not None"],
+    domain=lambda tier: _getitem_domain(tier),
     props=["C05", "C08", "C14"],
 )
